@@ -445,6 +445,9 @@ class Interp:
         m = re.fullmatch(r'&(?:mut |raw const |raw mut )?(.*)', t)
         if m:
             return Ref(self.place(m.group(1), p))
+        m = re.fullmatch(r'(.*) as (&.*) \(PointerCoercion\(Unsize, \w+\)\)', t)
+        if m:
+            return self.operand(m.group(1), p)      # &[T; N] -> &[T]: the same value
         m = re.fullmatch(r'(.*) as (\w+) \((\w+)\)', t)
         if m:
             v = self.operand(m.group(1), p)
